@@ -7,7 +7,7 @@ cd /verif
 # VERIF_REPO (default /repo): the tree the change is applied to and the checks build against; a scratch
 # worktree of /repo can be used while /repo itself must stay untouched (a background run reads it)
 R=${VERIF_REPO:-/repo}
-names=${@:-$(ls seeded)}
+names=${@:-$(ls -d seeded/*/ | xargs -n1 basename)}
 if [ -n "$(git -C $R status --porcelain)" ]; then echo "$R is not clean"; exit 2; fi
 for n in $names; do
   d=seeded/$n
